@@ -35,7 +35,8 @@ package ante
 //@   at_next @never_mixed_with_other_module wrkTx(tx) ==> !beaTx(tx)
 //@   at_next @fee_payer_can_cover wrkTx(tx) ==> balOf(bank_bal, bytesval(txFeePayer(tx)), wrkParams(wrk_store).Denom) + lockedAmt(ent_store, bytesval(txFeePayer(tx))) >= coinsAmt(txFee(tx), wrkParams(wrk_store).Denom) && bankSpendable(bank_bal, bytesval(txFeePayer(tx)), wrkParams(wrk_store).Denom) + lockedAmt(ent_store, bytesval(txFeePayer(tx))) >= coinsAmt(txFee(tx), wrkParams(wrk_store).Denom)
 
-// The slot check only reads; what it guarantees about the requested slots is not under contract yet.
+// The slot check only reads and cannot panic; what it guarantees about the requested slots is not under contract
+// (it tallies in a Go map and ranges over it: the engine does not track the visited set of a map range).
 //@ func checkWrkChainMaxSlots(ctx, tx, wck) (err)
 //@   props C06 C08
 //@   requires wrkParamsSet(wrk_store)
